@@ -23,15 +23,17 @@ Theorem C09_covered_under_every_schedule :
   forall k l st, kf_mergeconv k = false -> job_actions l -> covered st -> covered (run k l st).
 Proof. exact covered_job_run. Qed.
 
-(* at rest (no job in flight) a covered state is quiescent: import queue empty, no tag eligible for
-   re-evaluation, nothing queued for a converter, no eligible merge *)
-Theorem C09_rest_is_quiescent_partial :
-  forall k l st, kf_mergeconv k = false -> job_actions l -> covered st ->
-  no_job (run k l st) -> quiescent (run k l st).
-Proof. intros k l st K Hl H NJ. apply rest_quiescent; [apply covered_job_run; assumption|exact NJ]. Qed.
-(* partial: (1) `covered st` is assumed for the state in which the API calls stop (it is a post-condition of
-   every completion and of the start*JobIfNeeded calls, its preservation by the API calls is not proved);
-   (2) superseded by C09_every_schedule_terminates / C09_schedules_end_quiescent below, which need Tinv instead. *)
+(* at rest (no job in flight) every reachable state is quiescent: import queue empty, no tag eligible for
+   re-evaluation, nothing queued for a converter, no eligible merge (corollary of the invariant of every reachable
+   state, C09_invariant_in_every_reachable_state below in its theory form; the schedule form is
+   C09_every_schedule_from_every_reachable_state_ends_quiescent) *)
+Theorem C09_reachable_rest_is_quiescent :
+  forall cs l, NoDup cs -> valid_history (init cs) l ->
+  no_job (run repaired l (init cs)) -> quiescent (run repaired l (init cs)).
+Proof.
+  intros cs l ND V NJ. apply rest_quiescent; [|exact NJ].
+  exact (proj1 (proj2 (proj1 (Tinv_split _) (Tinv_reachable cs l ND V)))).
+Qed.
 
 (* no tag eligible => no tag uncertain, on well-formed tag sets (sorted slots, references to smaller live
    names -- both part of the C06 invariant --, dead slots clean): with the previous theorem, at rest no
